@@ -17,6 +17,9 @@ use spin::RwLock;
 use crate::util::verif::sync::spin_shim::RwLock;
 use std::cell::UnsafeCell;
 use std::mem::MaybeUninit;
+#[cfg(mmtk_verif)]
+use crate::util::verif::sync::AtomicUsize;
+#[cfg(not(mmtk_verif))]
 use std::sync::atomic::AtomicUsize;
 #[cfg(not(mmtk_verif))]
 use std::sync::Mutex;
